@@ -30,13 +30,13 @@ FILES = {
     'mido/messages/specs.py': 'C01 C02 C03 C04',
     'mido/messages/strings.py': 'C14 C03',
     'mido/tokenizer.py': 'C04 C05 C06 C18 C19',
-    'mido/parser.py': 'C04 C05 C06 C18 C10',
-    'mido/ports.py': 'C11 C18 C10',
+    'mido/parser.py': 'C04 C05 C06 C18',
+    'mido/ports.py': 'C11 C18',
     'mido/sockets.py': 'C18 C11',
     'mido/syx.py': 'C19',
     'mido/frozen.py': 'C15 C12',
     'mido/midifiles/meta.py': 'C09 C17 C07 C08 C14',
-    'mido/midifiles/midifiles.py': 'C07 C08 C13 C17 C16',
+    'mido/midifiles/midifiles.py': 'C07 C08 C13 C17',
     'mido/midifiles/tracks.py': 'C12 C16 C14 C13',
     'mido/midifiles/units.py': 'C13',
     'mido/backends/backend.py': 'C20',
@@ -181,12 +181,12 @@ def evaluate(job):
             res['outcome'] = 'killed-by-repo-tests'
             return res
         env = dict(os.environ, MIDO_REPO=d, VERIF_NOEVIDENCE='1',
-                   VERIF_PROCS=str(procs), VERIF_TIMEOUT='900',
+                   VERIF_PROCS=str(procs), VERIF_TIMEOUT='500',
                    VERIF_SCRATCH_TAG=str(idx))
         res['outcome'] = 'survived'
         res['checks'] = {}
         for c in checks:
-            rc, out = run(['/venv/bin/python', '-m', 'mc', c], '/verif', 960,
+            rc, out = run(['/venv/bin/python', '-m', 'mc', c], '/verif', 560,
                           env)
             res['checks'][c] = rc
             if rc == 1:
